@@ -1,5 +1,7 @@
 import DilithiumVerif.Props.C05
 import DilithiumVerif.Props.C04
+import DilithiumVerif.Props.C08
+import DilithiumVerif.Props.C11
 /-
   C09 — Randomness discipline.  The library as a machine over an RNG tape (the unread bytes of
   `rand::thread_rng()`): which operations draw, how many bytes, in which order, and how they enter.
@@ -123,5 +125,169 @@ theorem amounts (p : Params) (fuel : Nat) (m sk sig pk s : List Nat) :
     draws (.verify p sig m pk) = 0 ∧ draws (.sign p fuel m sk true) = (if p.mldsa then 32 else 64) := by
   refine ⟨rfl, rfl, rfl, rfl, ?_⟩
   simp only [draws, C05.drawn, if_true]; split <;> rfl
+
+/-! ### The API layer (containers, contexts, pre-hash) over the same tape
+
+  Every entry point of the six API modules is one raw operation on a framed message, or is answered without
+  touching anything (context longer than 255 bytes, signature of the wrong length). So the tape discipline of the
+  raw operations is the tape discipline of the API. -/
+
+inductive ApiOp where
+  | generate (p : Params) (entropy : Option (List Nat))
+  | sign (p : Params) (fuel : Nat) (sk msg : List Nat) (ctx : Option (List Nat)) (hedged : Bool)
+  | prehashSign (p : Params) (fuel : Nat) (sk phm : List Nat) (ctx : Option (List Nat)) (hedged : Bool) (ph : PH)
+  | verify (p : Params) (pk msg sig : List Nat) (ctx : Option (List Nat))
+  | prehashVerify (p : Params) (pk phm sig : List Nat) (ctx : Option (List Nat)) (ph : PH)
+  | dilSign (p : Params) (fuel : Nat) (sk msg : List Nat)
+  | dilVerify (p : Params) (pk msg sig : List Nat)
+
+def apiRun (t : Tape) : ApiOp → Chk (Out × Tape)
+  | .generate p e => (keypair_generate p e t).map (fun r => (.keys r.2.1 r.1, r.2.2))
+  | .sign p fuel sk msg ctx h => (mldsa_sign p fuel sk msg ctx h t).map (fun r => (.sig r.1, r.2))
+  | .prehashSign p fuel sk phm ctx h ph => (mldsa_prehash_sign p fuel sk phm ctx h ph t).map (fun r => (.sig r.1, r.2))
+  | .verify p pk msg sig ctx => (mldsa_verify p pk msg sig ctx).map (fun b => (.verdict b, t))
+  | .prehashVerify p pk phm sig ctx ph => (mldsa_prehash_verify p pk phm sig ctx ph).map (fun b => (.verdict b, t))
+  | .dilSign p fuel sk msg => (dil_sign p fuel sk msg).map (fun s => (.sig s, t))
+  | .dilVerify p pk msg sig => (dil_verify p pk msg sig).map (fun b => (.verdict b, t))
+
+/-- what an API call comes down to: an answer given at once (`inl`), or one raw operation (`inr`) -/
+def lower : ApiOp → Sum Out Op
+  | .generate p e => .inr (.keygen p e)
+  | .sign p fuel sk msg ctx h =>
+    match frame_pure msg ctx with
+    | none => .inl (.sig none)
+    | some m => .inr (.sign p fuel m sk h)
+  | .prehashSign p fuel sk phm ctx h ph =>
+    match frame_prehash phm ctx ph with
+    | none => .inl (.sig none)
+    | some m => .inr (.sign p fuel m sk h)
+  | .verify p pk msg sig ctx =>
+    if sig.length ≠ p.sigBytes then .inl (.verdict false) else
+    match frame_pure msg ctx with
+    | none => .inl (.verdict false)
+    | some m => .inr (.verify p sig m pk)
+  | .prehashVerify p pk phm sig ctx ph =>
+    if sig.length ≠ p.sigBytes then .inl (.verdict false) else
+    match frame_prehash phm ctx ph with
+    | none => .inl (.verdict false)
+    | some m => .inr (.verify p sig m pk)
+  | .dilSign p fuel sk msg => .inr (.sign p fuel msg sk false)
+  | .dilVerify p pk msg sig => if sig.length ≠ p.sigBytes then .inl (.verdict false) else .inr (.verify p sig msg pk)
+
+/-- the keys `keypair` returns have the standard sizes (seeded or not), so the containers of `Keypair::generate` take them as they are -/
+theorem keypair_sizes (p : Params) (hp : p ∈ allParams) (e : Option (List Nat)) (t : Tape) (pk sk : List Nat) (t' : Tape)
+    (hk : keypair p e t = .ok (pk, sk, t')) : pk.length = p.pkBytes ∧ sk.length = p.skBytes := by
+  cases e with
+  | some s =>
+    by_cases hl : s.length = SEEDBYTES
+    · rcases C08.keypair_total p hp s hl t with ⟨r, hr, hP⟩ | hf
+      · rw [hr] at hk; injection hk with hk; subst hk; exact ⟨hP.1, hP.2.1⟩
+      · rw [hf] at hk; cases hk
+    · unfold keypair at hk; simp only [hl, if_false, err_bind] at hk; cases hk
+  | none =>
+    by_cases hl : SEEDBYTES ≤ t.length
+    · rw [C04.keypair_unseeded p t hl] at hk
+      have hl' : (List.take SEEDBYTES t).length = SEEDBYTES := by rw [List.length_take]; omega
+      rcases C08.keypair_total p hp _ hl' (List.drop SEEDBYTES t) with ⟨r, hr, hP⟩ | hf
+      · rw [hr] at hk; injection hk with hk; subst hk; exact ⟨hP.1, hP.2.1⟩
+      · rw [hf] at hk; cases hk
+    · unfold keypair random_bytes at hk
+      have : ¬ t.length ≥ SEEDBYTES := hl
+      simp only [this, if_false, err_bind] at hk; cases hk
+
+theorem apiRun_lower (t : Tape) (op : ApiOp) (hp : ∀ p e, op = .generate p e → p ∈ allParams) :
+    apiRun t op = match lower op with
+      | .inl o => .ok (o, t)
+      | .inr r => run t r := by
+  cases op with
+  | generate p e =>
+    simp only [apiRun, lower, run, keypair_generate]
+    cases hk : keypair p e t with
+    | error err => rfl
+    | ok r =>
+      obtain ⟨pk, sk, t'⟩ := r
+      obtain ⟨h1, h2⟩ := keypair_sizes p (hp p e rfl) e t pk sk t' hk
+      simp only [ok_bind, C11.roundtrip _ sk h2, C11.roundtrip _ pk h1]
+      rfl
+  | sign p fuel sk msg ctx h =>
+    simp only [apiRun, lower, mldsa_sign]
+    cases frame_pure msg ctx <;> rfl
+  | prehashSign p fuel sk phm ctx h ph =>
+    simp only [apiRun, lower, mldsa_prehash_sign]
+    cases frame_prehash phm ctx ph <;> rfl
+  | verify p pk msg sig ctx =>
+    simp only [apiRun, lower, mldsa_verify]
+    by_cases hl : sig.length ≠ p.sigBytes
+    · rw [if_pos hl, if_pos hl]; rfl
+    · rw [if_neg hl, if_neg hl]
+      cases frame_pure msg ctx <;> rfl
+  | prehashVerify p pk phm sig ctx ph =>
+    simp only [apiRun, lower, mldsa_prehash_verify]
+    by_cases hl : sig.length ≠ p.sigBytes
+    · rw [if_pos hl, if_pos hl]; rfl
+    · rw [if_neg hl, if_neg hl]
+      cases frame_prehash phm ctx ph <;> rfl
+  | dilSign p fuel sk msg =>
+    simp only [apiRun, lower, run, dil_sign]
+    rw [C05.signature_det, C05.signature_det]
+    cases C05.signature_with p fuel msg sk none <;> rfl
+  | dilVerify p pk msg sig =>
+    simp only [apiRun, lower, dil_verify]
+    by_cases hl : sig.length ≠ p.sigBytes
+    · rw [if_pos hl, if_pos hl]; rfl
+    · rw [if_neg hl, if_neg hl]; rfl
+
+/-- RNG bytes an API call requests: those of the raw operation it comes down to; none when it is answered at once -/
+def apiDraws (op : ApiOp) : Nat :=
+  match lower op with
+  | .inl _ => 0
+  | .inr r => draws r
+
+/-- the result of an API call as a function of the bytes it is given -/
+def apiRunWith (bytes : List Nat) (op : ApiOp) : Chk Out :=
+  match lower op with
+  | .inl o => .ok o
+  | .inr r => runWith bytes r
+
+/-- one API call consumes exactly `apiDraws` bytes from the front of the tape and its output is a function of
+    exactly those bytes (and of the explicit arguments) -/
+theorem api_run_spec (t : Tape) (op : ApiOp) (hp : ∀ p e, op = .generate p e → p ∈ allParams) (h : apiDraws op ≤ t.length) :
+    apiRun t op = (apiRunWith (t.take (apiDraws op)) op).map (fun o => (o, t.drop (apiDraws op))) := by
+  rw [apiRun_lower t op hp]
+  unfold apiDraws apiRunWith at *
+  cases hl : lower op with
+  | inl o => simp only [List.drop_zero]; rfl
+  | inr r => rw [hl] at h; simp only at h ⊢; exact run_spec t r h
+
+/-- amounts at the API: hedged ML-DSA signing (pure or pre-hash) with a context of at most 255 bytes draws 32 bytes;
+    with a longer context nothing is drawn (the call answers `None` first); deterministic signing, Dilithium signing
+    through the API and every verification draw nothing -/
+theorem api_amounts (p : Params) (hm : p.mldsa = true) (fuel : Nat) (sk pk msg sig : List Nat) (ctx : Option (List Nat)) (ph : PH) :
+    ((∀ c, ctx = some c → c.length ≤ 255) → apiDraws (.sign p fuel sk msg ctx true) = 32 ∧ apiDraws (.prehashSign p fuel sk msg ctx true ph) = 32) ∧
+    ((∃ c, ctx = some c ∧ c.length > 255) → apiDraws (.sign p fuel sk msg ctx true) = 0 ∧ apiDraws (.prehashSign p fuel sk msg ctx true ph) = 0) ∧
+    apiDraws (.sign p fuel sk msg ctx false) = 0 ∧ apiDraws (.prehashSign p fuel sk msg ctx false ph) = 0 ∧
+    apiDraws (.verify p pk msg sig ctx) = 0 ∧ apiDraws (.prehashVerify p pk msg sig ctx ph) = 0 ∧
+    apiDraws (.dilSign p fuel sk msg) = 0 ∧ apiDraws (.dilVerify p pk msg sig) = 0 := by
+  have hS : SEEDBYTES = 32 := by decide
+  refine ⟨?_, ?_, ?_, ?_, ?_, ?_, ?_, ?_⟩
+  · intro hc
+    cases ctx with
+    | none => simp [apiDraws, lower, frame_pure, frame_prehash, draws, C05.drawn, hm, hS]
+    | some c =>
+      have := hc c rfl
+      have h' : ¬ c.length > 255 := by omega
+      simp [apiDraws, lower, frame_pure, frame_prehash, draws, C05.drawn, hm, hS, h']
+  · rintro ⟨c, rfl, hc⟩
+    simp [apiDraws, lower, frame_pure, frame_prehash, hc]
+  · cases h : frame_pure msg ctx <;> simp [apiDraws, lower, h, draws, C05.drawn]
+  · cases h : frame_prehash msg ctx ph <;> simp [apiDraws, lower, h, draws, C05.drawn]
+  · by_cases hl : sig.length ≠ p.sigBytes
+    · simp [apiDraws, lower, hl]
+    · cases h : frame_pure msg ctx <;> simp [apiDraws, lower, hl, h, draws]
+  · by_cases hl : sig.length ≠ p.sigBytes
+    · simp [apiDraws, lower, hl]
+    · cases h : frame_prehash msg ctx ph <;> simp [apiDraws, lower, hl, h, draws]
+  · simp [apiDraws, lower, draws, C05.drawn]
+  · by_cases hl : sig.length ≠ p.sigBytes <;> simp [apiDraws, lower, hl, draws]
 
 end DV.C09
